@@ -78,6 +78,7 @@ func catch(recover func(error) *Promise, k func(context.Context) *Promise) *Prom
 func (p *Promise) Force(ctx context.Context) (ok bool, err error) {
 	stack := promiseStack{p}
 	for len(stack) > 0 {
+		verifOnPoll(ctx)
 		select {
 		case <-ctx.Done():
 			return false, ctx.Err()
@@ -105,6 +106,7 @@ func (p *Promise) Force(ctx context.Context) (ok bool, err error) {
 			}
 
 			// Try the child promises from left to right.
+			verifOnChild(ctx)
 			q := p.child(ctx)
 			stack = append(stack, p, q)
 		}
